@@ -65,7 +65,8 @@ def downstream(stub):
     if f.startswith("_") or len(defs) != 1:
       continue
     d = defs[0]
-    if _callable_without_args(d, skip_self=False) and not _mentions_typevar(d.returns, tv) and not isinstance(d, pyast.AsyncFunctionDef):
+    if (_callable_without_args(d, skip_self=False) and not _mentions_typevar(d.returns, tv) and not _enum_literal(d.returns)
+        and not isinstance(d, pyast.AsyncFunctionDef)):
       lines.append("r_%s = a.%s()" % (f, f))
       exp["r_" + f] = adm.from_ast(d.returns, tv)
   return "\n".join(lines) + "\n", exp
@@ -166,6 +167,17 @@ def _callable_without_args(d, skip_self):
   return all(x is not None for x in a.kw_defaults)
 
 
+def _enum_literal(node):
+  """Whether an annotation contains Literal[<attribute>] (an enum member): its values are not Python literals."""
+  if node is None:
+    return False
+  for n in pyast.walk(node):
+    if isinstance(n, pyast.Subscript) and pyast.unparse(n.value).split(".")[-1] == "Literal":
+      if any(isinstance(x, pyast.Attribute) for x in pyast.walk(n.slice)):
+        return True
+  return False
+
+
 def _mentions_typevar(node, tv):
   if node is None:
     return False
@@ -257,6 +269,29 @@ def check_upstream(src, share):
     return [], {"outcome": "upstream-import-errors"}
   stub = pt.Stub(up.pyi)
   bsrc, exp = downstream(stub)
+  if uses_helpers:
+    # module-valued names of A (the helper package or its submodule, under whatever name A imported
+    # them) are read through A; what they contain is known from HELPER_STUBS
+    for node in pyast.parse(src).body:
+      if isinstance(node, (pyast.Import, pyast.ImportFrom)):
+        for al in node.names:
+          full = ("%s.%s" % (node.module, al.name)) if isinstance(node, pyast.ImportFrom) else al.name
+          local = al.asname or (al.name if isinstance(node, pyast.ImportFrom) else al.name.split(".")[0])
+          if isinstance(node, pyast.Import) and not al.asname:
+            full = al.name.split(".")[0]
+          path = None
+          if full in ("vkpkg.sub", "vkpkg2.sub"):
+            path = "a." + local
+          elif full in ("vkpkg", "vkpkg2") and isinstance(node, pyast.Import) and "." in al.name and not al.asname:
+            path = "a.%s.sub" % local
+          if path:
+            bsrc += "hw_%s = %s.W\nhz_%s = %s.K().z\nhm_%s = %s.mk()\n" % (local, path, local, path, local, path)
+            exp["hw_" + local] = ("cls", "int")
+            exp["hz_" + local] = ("cls", "str")
+            exp["hm_" + local] = ("cls", "K")
+          elif full in ("vkpkg", "vkpkg2"):
+            bsrc += "hv_%s = a.%s.v\n" % (local, local)
+            exp["hv_" + local] = ("cls", "int")
   uses = replay_lines(src, stub)
   bsrc += "".join(line + "\n" for _, line, _ in uses)
   if not exp and not uses:
